@@ -156,6 +156,18 @@ func main() {
 						msgs = append(msgs, fmt.Sprintf("handle %v: source Alive=%v, loaded Alive=%v, at dump time %v (checkpoint=%v)", s.h, d.W.Alive(s.h), w2.Alive(s.h), s.alive, checkpoint))
 					}
 				}
+				// the reserved zero and wildcard entities are not alive in a loaded world either
+				var wild ecs.Entity
+				_ = wild.UnmarshalBinary([]byte{0, 0, 0, 1, 0, 0, 0, 0})
+				for _, h := range []ecs.Entity{{}, wild} {
+					if w2.Alive(h) != d.W.Alive(h) || w2.Alive(h) {
+						msgs = append(msgs, fmt.Sprintf("reserved entity %v: source Alive=%v, loaded Alive=%v, want false", h, d.W.Alive(h), w2.Alive(h)))
+					}
+				}
+				p1, p2 := try(func() { d.W.RemoveEntity(ecs.Entity{}) }), try(func() { w2.RemoveEntity(ecs.Entity{}) })
+				if p1 == nil || p2 == nil || fmt.Sprint(p1) != fmt.Sprint(p2) {
+					msgs = append(msgs, fmt.Sprintf("RemoveEntity(zero entity): source panic %v, loaded world panic %v", p1, p2))
+				}
 				if b := w2.Stats().Entities; b.Used != usedAtDump {
 					msgs = append(msgs, fmt.Sprintf("loaded world reports %d alive entities, %d were alive at dump time", b.Used, usedAtDump))
 				}
